@@ -295,7 +295,7 @@ pub fn replay(path: &str) -> i32 {
     let r = if v.get("replay").is_some() { &v["replay"] } else { &v };
     let cell = drive::all_cells()[r["cell_index"].as_u64().expect("cell_index") as usize];
     let topo_name = r["topo"].as_str().expect("topo").to_string();
-    let topo: &'static str = drive::TOPOLOGIES.iter().chain(["L4", "refuse", "silent-all", "far-target-late"].iter()).find(|t| **t == topo_name).copied().expect("MACHINERY: topo");
+    let topo: &'static str = drive::TOPO_NAMES.iter().find(|t| **t == topo_name).copied().expect("MACHINERY: topo");
     let params = c01::params_from_json(&r["params"]);
     let delta = r["sibling_delta"].as_u64().unwrap_or(1) as u16;
     let choices: Vec<u16> = r["choices"].as_array().expect("choices").iter().map(|c| c.as_u64().unwrap() as u16).collect();
